@@ -23,7 +23,7 @@ import json
 import sys
 
 from . import tables
-from .common import VERIF, Check, Err, Raw, cN, cZ, cbool, clist, copt, cpair, cstr, impl_call
+from .common import VERIF, Check, Err, Raw, cN, cZ, cbool, clist, copt, cpair, cstr, cval, impl_call
 from .tables import TableError
 
 IMPORTS = ("From Coq Require Import List NArith ZArith Bool.\n"
@@ -526,7 +526,7 @@ def g_pkg(rng, depth=2):
     if r < 0.80:
         return ("multi", g_value(rng, 2), rng.random() < 0.3)
     if r < 0.86:
-        return ("atom", rng.choice(ATOMS), rng.random() < 0.15)
+        return ("atom", rng.choice(ATOMS), rng.random() < 0.25)
     if depth <= 0:
         return ("always", "package", rng.random() < 0.5)
     if r < 0.90:
@@ -643,10 +643,13 @@ def variant(rng, s):
         return rng.choice([s, ("negate", variant(rng, s[1]))])
     if k == "atom":
         t = s[1]
-        opts = [s, s, flipat(s, 2), ("atom", "!" + t, s[2]), ("atom", "!!" + t, s[2])]
+        t = t.lstrip("!")
+        opts = [s, s, flipat(s, 2), ("atom", "!" + t, s[2]), ("atom", "!!" + t, s[2]), ("atom", t, s[2])]
         if "[" in t:
             head, use = t[:-1].split("[")
             toks = use.split(",")
+            bang = s[1][:len(s[1]) - len(t)]
+            head = bang + head
             opts += [("atom", head + "[" + ",".join(shuffled(rng, toks)) + "]", s[2])] * 3
             opts.append(("atom", head + "[" + ",".join(
                 (x[:-3] + ("(-)" if x.endswith("(+)") else "(+)")) if x.endswith(")") else x for x in toks) + "]",
@@ -690,6 +693,63 @@ WITNESSES = [
     (("pr", "slot", ("exact", "0", True, False), False, True), ("pr", "slot", ("exact", "0", True, False), False, False), 3),
     (("vm", "<", "1.0", None, True), ("vm", ">=", "1.0", None, False), 3),
     (("vm", "~", "1.0", None, False), ("vm", "~", "1.0", None, True), 3),
+    # one pair per compared attribute: the two calls differ in exactly that attribute
+    (("exact", "foo", True, False), ("exact", "foo", True, True), 0),
+    (("exact", "foo", True, False), ("exact", "foo", False, False), 0),
+    (("exact", "foo", True, False), ("exact", "Foo", True, False), 0),
+    (("glob", "fo", True, True, False), ("glob", "fo", True, False, False), 0),
+    (("glob", "fo", True, True, False), ("glob", "fo", True, True, True), 0),
+    (("glob", "fo", True, True, False), ("glob", "fo", False, True, False), 0),
+    (("regex", "fo", True, False, False), ("regex", "fo", True, True, False), 0),
+    (("regex", "fo", True, False, False), ("regex", "fo", True, False, True), 0),
+    (("regex", "fo", True, False, False), ("regex", "fo", False, False, False), 0),
+    (("regex", "fo", True, False, False), ("regex", "oo", True, False, False), 0),
+    (("cont", ("x", "y"), True, False), ("cont", ("x", "y"), False, False), 1),
+    (("cont", ("x", "y"), True, False), ("cont", ("x", "y"), True, True), 1),
+    (("cont", ("x", "y"), True, False), ("cont", ("x", "z"), True, False), 1),
+    (("udc", True, ("x", "y"), False), ("udc", True, ("x", "y"), True), 2),
+    (("ver", "=", "1.0", 1, False), ("ver", "=", "1.0", 2, False), 3),
+    (("ver", "=", "1.0", None, False), ("ver", "=", "1.00", None, False), 3),
+    (("ver", "=", "1.0", None, False), ("ver", "~", "1.0", None, False), 3),
+    (("ver", "<", "1.0", None, False), ("ver", "<=", "1.0", None, False), 3),
+    (("pr", "slot", ("exact", "0", True, False), False, True), ("pr", "subslot", ("exact", "0", True, False), False, True), 3),
+    (("pr", "slot", ("exact", "0", True, False), False, True), ("pr", "slot", ("exact", "0", True, False), True, True), 3),
+    (("pr", "slot", ("exact", "0", True, False), False, True), ("slot", "0", False), 3),
+    (("slot", "0", False), ("slot", "0", True), 3),
+    (("slot", "0", False), ("subslot", "0", False), 3),
+    (("vm", "=", "1.0", 1, False), ("vm", "=", "1.0", 2, False), 3),
+    (("multi", ("udc", True, ("x",), False), False), ("multi", ("udc", True, ("x",), False), True), 3),
+    (("multi", ("udc", True, ("x",), False), False), ("udd", True, (), ("x",)), 3),
+    (("vnode", "and", False, (("exact", "a", True, False), ("glob", "a", True, True, False))),
+     ("vnode", "or", False, (("exact", "a", True, False), ("glob", "a", True, True, False))), 0),
+    (("vnode", "and", False, (("exact", "a", True, False),)), ("vnode", "and", True, (("exact", "a", True, False),)), 0),
+    (("pnode", "and", False, (("cat", "a", False), ("slot", "0", False))),
+     ("pnode", "and", False, (("slot", "0", False), ("cat", "a", False))), 3),
+    (("pnode", "one", False, (("cat", "a", False), ("slot", "0", False))),
+     ("pnode", "amo", False, (("cat", "a", False), ("slot", "0", False))), 3),
+    (("pnode", "or", False, (("cat", "a", False),)), ("pnode", "or", False, (("cat", "a", False), ("cat", "a", False))), 3),
+    (("cond", ("cont", "x", False, False), (("cat", "a", False),), False),
+     ("cond", ("cont", "x", False, False), (("cat", "dev-libs", False),), False), 3),
+    (("cond", ("cont", "x", False, False), (("cat", "a", False),), False),
+     ("cond", ("cont", "x", False, False), (("cat", "a", False),), True), 3),
+    (("cond", ("cont", "x", False, False), (("cat", "a", False),), False),
+     ("cond", ("cont", "y", False, False), (("cat", "a", False),), False), 3),
+    (("atom", "=a/b-1.0", False), ("atom", "=a/b-1.0", True), 3),
+    (("atom", ">=a/b-1.0", False), ("atom", ">=a/b-1.0", True), 3),
+    (("atom", "~a/b-1.0", False), ("atom", "~a/b-1.0", True), 3),
+    (("atom", "=a/b-1.0", False), ("atom", "~a/b-1.0", False), 3),
+    (("atom", "=a/b-1.0", False), ("atom", "=a/b-1.00", False), 3),
+    (("atom", "=a/b-1.0", False), ("atom", "=a/b-1.0-r0", False), 3),
+    (("atom", "a/b:0", False), ("atom", "a/b:1", False), 3),
+    (("atom", "a/b:0/0", False), ("atom", "a/b:0/2", False), 3),
+    (("atom", "a/b:0", False), ("atom", "a/b:0=", False), 3),
+    (("atom", "a/b", False), ("atom", "a/b:=", False), 3),
+    (("atom", "a/b::gentoo", False), ("atom", "a/b::other", False), 3),
+    (("atom", "a/b[x]", False), ("atom", "a/b[-x]", False), 3),
+    (("atom", "a/b[x]", False), ("atom", "a/b[x(+)]", False), 3),
+    (("atom", "a/b", False), ("atom", "!a/b", False), 3),
+    (("atom", "a/b", False), ("atom", "dev-libs/foo", False), 3),
+    (("atom", "=a/b-1*", False), ("atom", "=a/b-1", False), 3),
 ]
 
 
@@ -715,7 +775,7 @@ def subject_of(s):
 def gen_pairs(chk):
     rng = chk.rng
     out = []
-    n = chk.n(520, 6000)
+    n = chk.n(240, 5000)
     for i in range(n):
         r = rng.random()
         if r < 0.22:
@@ -936,11 +996,19 @@ def main(chk: Check):
                      "eq_after_hash_both": list(eq2), "hash_eq": heq, "match_a": ma, "match_b": mb})
         if a is not b and a_s != b_s:
             chk.nontrivial(repr((a_s, b_s)))
+    if not (chk.thorough or chk.fingerprint_changed) and len(intro_cases) > 300:
+        # quick tier: the witnesses' terms and an evenly spread sample of the rest
+        nw = 2 * len(WITNESSES)
+        rest = list(range(nw, len(intro_cases)))
+        pick = set(range(nw)) | set(rest[:: max(1, len(rest) // 150)])
+        intro_cases = [c for i, c in enumerate(intro_cases) if i in pick]
+        intro_meta = [c for i, c in enumerate(intro_meta) if i in pick]
     lap("drive implementation")
     chk.count("pair", len(pair_cases))
     chk.count("eqst", len(eq_cases))
     chk.count("intro", len(intro_cases))
     chk.count("atomr", len(atomr_cases))
+    chk.cov["answers_compared"] = sum(3 + 2 * len(m["match_a"]) for m in meta) + 2 * len(eq_cases)
     chk.cov["equal_pairs"] = sum(1 for m in meta if m["eq"][0] is True)
     chk.cov["equal_pairs_from_different_calls"] = sum(1 for m in meta if m["eq"][0] is True and m["a"] != m["b"])
     hist = {}
@@ -989,21 +1057,46 @@ def main(chk: Check):
         import concurrent.futures as cf
 
         pre = preamble()
+        def deflist(name, ty, cases):
+            rows = ";\n".join(f"  ({inp},\n   {cval(r_)})" for inp, r_ in cases)
+            return (f"Definition {name} : list (({ty}) * val) := "
+                    + (f"[\n{rows}\n]." if cases else f"(@nil (({ty}) * val)).") + "\n")
+
+        glue_pre = (deflist("ecases", "cfg * restr * restr", eq_cases)
+                    + deflist("acases", "atomrec * list restr", atomr_cases))
         jobs = {
             "pair": lambda: chk.coq_eval("pair", IMPORTS, "cfg * restr * restr * N * bool", pair_cases,
                                          ["mismatches (run_pair univ) cases",
-                                          "where_ (fun i r => negb (spec_pair_ok r)) cases"], shard=280, preamble=pre),
-            "eqst": lambda: chk.coq_eval("eqst", IMPORTS, "cfg * restr * restr", eq_cases,
-                                         ["mismatches run_eq cases"], shard=400),
-            "atomr": lambda: chk.coq_eval("atomr", IMPORTS, "atomrec * list restr", atomr_cases,
-                                          ["where_ (fun i _ => negb (atom_shape_ok (fst i) (snd i))) cases"], shard=300),
-            "intro": lambda: chk.coq_eval("intro", IMPORTS, "restr * restr", intro_cases,
-                                          ["where_ (fun i _ => negb (same_shape (fst i) (snd i))) cases"], shard=400),
+                                          "where_ (fun i r => negb (spec_pair_ok r)) cases"],
+                                         shard=chk.n(160, 300), preamble=pre),
+            # one file: read-back terms vs constructor-built terms, atom.restrictions, == in later hashed states
+            "glue": lambda: chk.coq_eval("glue", IMPORTS, "restr * restr", intro_cases,
+                                         ["where_ (fun i _ => negb (same_shape (fst i) (snd i))) cases",
+                                          "where_ (fun i _ => negb (atom_shape_ok (fst i) (snd i))) acases",
+                                          "mismatches run_eq ecases"],
+                                         shard=10 ** 6,
+                                         preamble=glue_pre),
         }
+        big = chk.thorough or chk.fingerprint_changed
+        if big:       # too much for one file: the three glue lists as separate sharded streams
+            del jobs["glue"]
+            jobs["eqst"] = lambda: chk.coq_eval("eqst", IMPORTS, "cfg * restr * restr", eq_cases,
+                                                ["mismatches run_eq cases"], shard=400)
+            jobs["atomr"] = lambda: chk.coq_eval("atomr", IMPORTS, "atomrec * list restr", atomr_cases,
+                                                 ["where_ (fun i _ => negb (atom_shape_ok (fst i) (snd i))) cases"],
+                                                 shard=400)
+            jobs["intro"] = lambda: chk.coq_eval("intro", IMPORTS, "restr * restr", intro_cases,
+                                                 ["where_ (fun i _ => negb (same_shape (fst i) (snd i))) cases"],
+                                                 shard=400)
         with cf.ThreadPoolExecutor(max_workers=4) as ex:
             futs = {k: ex.submit(f) for k, f in jobs.items()}
             res = {k: f.result() for k, f in futs.items()}
         lap("coq")
+        if not big:
+            g = res["glue"]
+            res["intro"] = None if g is None else [g[0]]
+            res["atomr"] = None if g is None else [g[1]]
+            res["eqst"] = None if g is None else [g[2]]
         r = res["pair"]
         if r is not None:
             pyfail = {id(m) for m, _, _ in fails}
